@@ -166,6 +166,7 @@ let dispatch (op : string) (x : v) : v =
       of_opt (fun (m, e) -> L [of_z m; of_z e]) (first [e0; e0 - 1; e0 + 1])
   | "fmt_f", [p; x] -> of_z (M.fmt_f (to_nat p) (to_q x))
   | "ndist", [l; step] -> of_z (M.ndist (to_q l) (to_q step))
+  | "ndist_g", [g; l; step] -> of_z (M.ndist_g (to_q g) (to_q l) (to_q step))
   | "gridlog", [lo; hi; n] -> of_list of_q (M.gridlog_m (to_q lo) (to_q hi) (to_nat n))
   | "rank", [chi] -> of_list of_nat (M.rank_m (to_list to_xnum chi))
   | "interp_clamp", [tab; rs] ->
